@@ -1796,8 +1796,8 @@ mod chipc {
             })
         };
         if let Sat::Panic(p) = &info.sat {
-            if ref_markers.is_some() || !p.file.contains("/repo/") {
-                if !p.file.contains("/repo/") && !p.file.contains("midnight") {
+            if ref_markers.is_some() || !in_repo(&p.file) {
+                if !in_repo(&p.file) && !p.file.contains("midnight") {
                     rep.inconclusive(&format!("chip: panic outside the repository: {} @ {}", p.message, p.location));
                 } else {
                     rep.violation(&format!("C19/chip/panic@{}", repo_file(&p.file)), &format!("panic while parsing in-circuit: {}", p.message), witness());
